@@ -26,6 +26,27 @@ def build(tier):
                 orders = orders[::2]
         else:
             orders = [p for p, _ in ref.chain_cover(n)]
+        # order-dependent behaviour: chain covers fix the prefix SETS, not the orders.  Add (a) every subset of
+        # the repair symbols first (index order) followed by the source symbols in reverse / index order, so that a
+        # late source symbol resolves several equations at once, and (b) random permutations (VERIF_SEED).
+        import os, random
+        rnd = random.Random(int(os.environ.get("VERIF_SEED", "0") or 0) * 1000 + ci)
+        fam = []
+        if n > 5 or tier == "quick":
+            reps = list(range(k, n))
+            for mask in range(1, 1 << r):
+                sub = [reps[i] for i in range(r) if mask >> i & 1]
+                if len(sub) < 2:
+                    continue
+                fam.append(sub + list(range(k))[::-1])
+                if tier == "thorough":
+                    fam.append(sub + list(range(k)))
+            for _ in range(12 if tier == "quick" else 60):
+                perm = list(range(n))
+                rnd.shuffle(perm)
+                fam.append(perm)
+        for oi, o in enumerate(fam):
+            qs.append(stream_query(cfg, o, (1, 9)[oi % 2]))
         for oi, o in enumerate(orders):
             qs.append(stream_query(cfg, o, (1, 9)[oi % 2]))
             if tier == "quick" and oi % 2:
@@ -35,7 +56,7 @@ def build(tier):
     meta = dict(
         units=["src/lib_common/linear_binary_codes_utils/it_decoding/of_it_decoding.c", "src/lib_stable/ldpc_staircase/of_ldpc_staircase_api.c", "binary_matrix/of_matrix_sparse.c"],
         functions_encoded=["of_decode_with_new_symbol -> of_linear_binary_code_decode_with_new_symbol (recursive peeling)", "of_is_decoding_complete", "of_get_source_symbols_tab"],
-        bounds="(k,r,N1,seed) in %s; arrival orders: a symmetric-chain cover of the subset lattice (C(n,n/2) permutations: every subset of the n symbols is the received set after some prefix)%s, each also with every symbol immediately duplicated; after EVERY call the available-source mask and of_is_decoding_complete are compared with the peeling closure of the prefix computed on the reference matrix; all source bytes symbolic and every available symbol compared with the source" % (cfgs, " / all n! permutations for n<=5, half of them for n=6" if tier == "thorough" else ""),
+        bounds="(k,r,N1,seed) in %s; arrival orders: a symmetric-chain cover of the subset lattice (C(n,n/2) permutations: every subset of the n symbols is the received set after some prefix)%s, each also with every symbol immediately duplicated; plus, for order dependence, every subset (>= 2) of the repair symbols first followed by the source symbols in reverse order, and 12 (60) random permutations per configuration; after EVERY call the available-source mask and of_is_decoding_complete are compared with the peeling closure of the prefix computed on the reference matrix; all source bytes symbolic and every available symbol compared with the source" % (cfgs, " / all n! permutations for n<=5, half of them for n=6" if tier == "thorough" else ""),
         outside_bounds="orders outside the family for n>=7; larger codes. When the decoder reports the last repair symbol as null (even N1) it is counted as received from the start, as the decoder pre-injects it",
         stubs=[], assumptions=STD_ASSUMPTIONS, exhaustive=False)
     return qs, meta
